@@ -7,6 +7,8 @@ CONSTANTS
   MaxLen = 3
   WithBad = FALSE
   WithDup = TRUE
+  WithSplit = FALSE
+  C0peer = "a0"
   MaxLevel = 5
 INVARIANTS TypeOK PropertyHolds
 CHECK_DEADLOCK FALSE
